@@ -454,7 +454,7 @@ func child(a lib.Args) {
 			switch l[0] {
 			case "srv":
 				d.runSrv(l[1], parseSteps(l[2]))
-			case "srv.scmpauth", "srv.tailmac":
+			case "srv.scmpauth", "srv.tailmac", "srv.maclen", "srv.fwdbig":
 				d.runSrvKind(l[0], l[1], parseSteps(l[2]))
 			case "cli.tailmac":
 				d.replayCli("cli.tailmac", l[1], l[2])
@@ -535,11 +535,78 @@ func child(a lib.Args) {
 		}
 		d.runSrvKind("srv.tailmac", tags.String(), steps)
 	}
+	// kind srv.maclen: requests for the service whose authenticator has the time service's SPI and
+	// algorithm but data of another length (a MAC of 0, 12, 15, 17, 20, 32 bytes): cannot verify
+	rm := r.Fork()
+	nml := 60
+	if a.Tier == "thorough" {
+		nml = 600
+	}
+	for i := 0; i < nml && !d.lost; {
+		tags := tagset{"nt": true, "auth-other-len": true}
+		listener := rm.Intn(2)
+		h := d.genSpec(rm, listener, tags)
+		h.payload = ntpRequest(rm, 0)
+		h.e2e = true
+		data := authMeta(scion.PacketAuthSPIClient, 0)[:12]
+		data = append(data, rm.Bytes(lib.Pick(rm, 0, 12, 15, 17, 17, 20, 32))...)
+		h.opts = []optSpec{{2, data}}
+		if rm.Intn(4) == 0 { // behind another option
+			h.opts = []optSpec{{253, rm.Bytes(8)}, {2, data}}
+		}
+		raw, err := h.build()
+		if err != nil || probeCandidate(raw) {
+			continue
+		}
+		i++
+		d.runSrvKind("srv.maclen", tags.String(), []step{{listener: listener, sender: rm.Intn(nSenders), raw: raw}})
+	}
 	nf := 120
 	if a.Tier == "thorough" {
 		nf = 1200
 	}
 	d.runFwdNoTs(r.Fork(), nf, nil)
+	// kind srv.fwdbig: packets for another end-host port whose end-to-end extension is (nearly) as
+	// long as an extension can be (1024 bytes): the forwarder's 66-byte timestamp option fits or not
+	rb := r.Fork()
+	nfb := 40
+	if a.Tier == "thorough" {
+		nfb = 400
+	}
+	for i := 0; i < nfb && !d.lost; {
+		tags := tagset{"nt": true, "fwd-candidate": true, "large-e2e-extension": true}
+		listener := 1 + rb.Intn(2)
+		h := d.genSpec(rb, listener, tags)
+		h.dstType, h.dstRaw = 0, append([]byte(nil), d.hIP...)
+		h.udpDst = uint16(lib.Pick(rb, 31000, 31001))
+		h.e2e = true
+		total := lib.Pick(rb, 1024, 1024, 1024, 1020, 960, 956, 952, 600)
+		rest := total - 2
+		if rb.Bool() {
+			addAuth(rb, h, 0, tagset{})
+			h.hbh = false
+			rest -= 30
+		} else {
+			h.opts = nil
+		}
+		for rest >= 2 {
+			c := rest
+			if c > 255 {
+				c = 255
+			}
+			if rest-c == 1 {
+				c--
+			}
+			h.opts = append(h.opts, optSpec{200, rb.Bytes(c - 2)})
+			rest -= c
+		}
+		raw, err := h.build()
+		if err != nil || probeCandidate(raw) {
+			continue
+		}
+		i++
+		d.runSrvKind("srv.fwdbig", tags.String(), []step{{listener: listener, sender: rb.Intn(nSenders), raw: raw}})
+	}
 	// SCMP echo / traceroute requests that carry the time service's authenticator with a MAC that
 	// does not verify (kind srv.scmpauth: C13's "never served" read literally; the listener does
 	// not look at the authenticator of SCMP requests - KNOWN_FINDINGS)
